@@ -103,6 +103,13 @@ def gen_matrix(rng, tier, robust=None):
         sp['lo'] = (-np.asarray(sp['hi'])).tolist()
     if rng.random() < 0.3:
         sp['zlo'] = (-np.asarray(sp['zhi'])).tolist()
+    elif rng.random() < 0.4:
+        # some random components fixed at a non-zero value (lower bound == upper bound)
+        zl = np.broadcast_to(np.asarray(sp['zlo'], float), (n, m)).copy()
+        zh = np.broadcast_to(np.asarray(sp['zhi'], float), (n, m)).copy()
+        fixed = rng.random((n, m)) < 0.35
+        zl[fixed] = zh[fixed]
+        sp['zlo'], sp['zhi'] = zl.tolist(), zh.tolist()
     if robust is not None:
         sp['robust'] = robust
     nv = 5 if tier == 'quick' else 8
